@@ -164,7 +164,9 @@ pub fn format_buf(args: Vec<Rc<Object>>) -> Result<Collector, String> {
             }
             continue;
         } else if curr == '}' {
-            if next == '}' {
+            // inside a specifier the first '}' always closes it: "{0}}}" is
+            // the specifier {0} followed by the escape }}
+            if next == '}' && !in_spec {
                 write!(collector, "}}").map_err(|e| e.to_string())?;
                 idx_fmt += 2; // skip next brace as well
                 continue;
